@@ -154,13 +154,13 @@ static ll shash(const std::string& s) { return fold(fnv(s.data(),s.size())); }
 static ll mhash(const double* d,size_t n) { return fold(fnv(d,n*sizeof(double))); }
 
 struct Catalog {
-    std::vector<std::vector<std::string>> G,S,M;     // G: {"G",geom,cond} or {"I",name,path,...}
+    std::vector<std::vector<std::string>> G,S,M,L;     // G: {"G",geom,cond} or {"I",name,path,...}
     Catalog() {
         std::ifstream in("catalog.txt"); std::string line;
         while (std::getline(in,line)) {
             std::istringstream ls(line); std::vector<std::string> t; std::string x; while (ls >> x) t.push_back(x);
             if (t.empty()) continue;
-            if (t[0]=="G" || t[0]=="I") G.push_back(t); else if (t[0]=="S") S.push_back(t); else if (t[0]=="M") M.push_back(t);
+            if (t[0]=="G" || t[0]=="I") G.push_back(t); else if (t[0]=="S") S.push_back(t); else if (t[0]=="M") M.push_back(t); else if (t[0]=="L") L.push_back(t);
         }
     }
 };
@@ -218,7 +218,16 @@ static Wire run_geom(Reader& r) {
         const size_t o = r.n(), i = r.n();
         Wire ob;
         if (o==0) { const ll st = geom_do(g,i); ob = geom_obs(st,g); }
-        else ob = geom_obs((g.meshes().empty() || g.domains().empty() || !g.has_conductivities()) ? -1 : headmat_fp(g),g);
+        else if (o==1) ob = geom_obs((g.meshes().empty() || g.domains().empty() || !g.has_conductivities()) ? -1 : headmat_fp(g),g);
+        else {      // another assembly on the same geometry: one dipole at the centroid of the vertices
+            guarded_om([&]() {
+                if (g.vertices().empty()) return;
+                Vect3 c(0.0,0.0,0.0); for (const auto& v : g.vertices()) c += v; c = c/(double)g.vertices().size();
+                Matrix dip(1,6); dip(0,0) = c.x(); dip(0,1) = c.y(); dip(0,2) = c.z(); dip(0,3) = 0; dip(0,4) = 0; dip(0,5) = 1;
+                Matrix D = DipSourceMat(g,dip,"");
+            });
+            ob = geom_obs(-2,g);
+        }
         out.push_back((ll)ob.size()); out.insert(out.end(),ob.begin(),ob.end());
     }
     return out;
@@ -292,6 +301,27 @@ static Wire run_mesh(Reader& r) {
     return out;
 }
 
+// ---- machine 5: one persistent Vector / Matrix / SymMatrix / SparseMatrix object
+template <typename T> static Wire dense_obs(const T& x) { return Wire{ 0,(ll)x.nlin(),(ll)x.ncol(),1,0,x.size() ? mhash(x.data(),x.size()) : 1 }; }
+static Wire sparse_obs(const SparseMatrix& p) {
+    Wire o{ 0,(ll)p.nlin(),(ll)p.ncol(),(ll)p.size() };
+    for (auto it=p.begin();it!=p.end();++it) { o.push_back((ll)it->first.first*1048576+(ll)it->first.second); const double v = it->second; o.push_back(mhash(&v,1)); }
+    return o;
+}
+static Wire run_linop(Reader& r,bool describe) {
+    const size_t k = r.n();
+    if (k>3) throw Reader::Malformed();
+    Vector V; Matrix M; SymMatrix S; SparseMatrix P;
+    const size_t nops = describe ? 1 : r.n(); Wire out;
+    for (size_t q=0;q<nops;++q) {
+        const std::string f = catalog().L.at(r.n())[1];
+        const ll st = guarded_om([&]() { switch (k) { case 0: V.load(f.c_str()); break; case 1: M.load(f.c_str()); break; case 2: S.load(f.c_str()); break; default: P.load(f.c_str()); } });
+        Wire ob = st ? Wire{ st } : (k==0 ? dense_obs(V) : k==1 ? dense_obs(M) : k==2 ? dense_obs(S) : sparse_obs(P));
+        out.push_back((ll)ob.size()); out.insert(out.end(),ob.begin(),ob.end());
+    }
+    return out;
+}
+
 static Wire dispatch(const std::string& comp,Reader& r) {
     if (comp!="c17") return Wire{-1};
     const size_t m = r.n();
@@ -308,6 +338,8 @@ static Wire dispatch(const std::string& comp,Reader& r) {
         case 30: return run_sens(r,true);
         case 4: return run_mesh(r);
         case 40: return mesh_describe(r.n());
+        case 5: return run_linop(r,false);
+        case 50: return run_linop(r,true);
         case 10: {  // write the fixed object of kind k with the explicit format g into w.out
             const size_t g = r.n(), k = r.n();
             if (g>3 || k>3) throw Reader::Malformed();
